@@ -43,6 +43,10 @@ type ReadPlan struct {
 	// Limit < 0: read until the reader reports an error (EOF included).
 	// Limit >= 0: stop after exactly Limit octets (0 = do not read at all).
 	Limit int `json:"limit"`
+	// Retry > 0: after the reader failed with something other than EOF, ask
+	// again that many times (a backend that drains or retries after an
+	// error); what comes back is recorded in AfterErr / AfterErrBytes.
+	Retry int `json:"retry,omitempty"`
 }
 
 // StatusCall is one LMTP SetStatus call of the script.
@@ -112,19 +116,22 @@ type ReadRes struct {
 
 // DataRecord is what one Data / LMTPData call observed.
 type DataRecord struct {
-	Ordinal   int
-	Bytes     []byte
-	NReads    int
-	Reads     []ReadRes // first 64
-	Err       error     // terminal reader result (nil when the plan stopped early)
-	ErrStr    string
-	EOF       bool      // Err == io.EOF
-	AfterEOF  []ReadRes // results of re-reading after EOF
-	Returned  error
-	Panicked  bool
-	Stopped   bool // plan stopped before the reader ended
-	ZeroNil   int  // (0, nil) reads seen
-	StatusSet []string
+	Ordinal  int
+	Bytes    []byte
+	NReads   int
+	Reads    []ReadRes // first 64
+	Err      error     // terminal reader result (nil when the plan stopped early)
+	ErrStr   string
+	EOF      bool      // Err == io.EOF
+	AfterEOF []ReadRes // results of re-reading after EOF
+	AfterErr []ReadRes // results of re-reading after a non-EOF error (ReadPlan.Retry)
+	// AfterErrBytes: octets those reads handed over
+	AfterErrBytes []byte
+	Returned      error
+	Panicked      bool
+	Stopped       bool // plan stopped before the reader ended
+	ZeroNil       int  // (0, nil) reads seen
+	StatusSet     []string
 }
 
 // Event is one entry of the totally ordered callback trace.
@@ -529,6 +536,18 @@ func readMessage(r io.Reader, plan ReadPlan, rec *DataRecord) {
 			rec.ErrStr = err.Error()
 			rec.EOF = err == io.EOF
 			break
+		}
+	}
+	if !rec.EOF && rec.Err != nil {
+		for j := 0; j < plan.Retry; j++ {
+			buf := make([]byte, 64)
+			n, err := r.Read(buf)
+			rr := ReadRes{N: n}
+			if err != nil {
+				rr.Err = err.Error()
+			}
+			rec.AfterErr = append(rec.AfterErr, rr)
+			rec.AfterErrBytes = append(rec.AfterErrBytes, buf[:n]...)
 		}
 	}
 	if rec.EOF {
